@@ -26,7 +26,8 @@ RobustFam(c) ==
           THEN <<"ACCEPT", "", "spikes">> ELSE <<"REJECT", "NotZeroed", "">>)
 
 Verdict(c) ==
-    CASE c.op = "fixed" -> FixedVerdict(c.y, c.nd, c.lam, c.out, c.hasp, c.p, c.hints, c.hinted)
+    CASE c.inmod -> <<"REJECT", "InputsUnmodified", c.variant>>        \* the kernel wrote into the caller's array
+      [] c.op = "fixed" -> FixedVerdict(c.y, c.nd, c.lam, c.out, c.hasp, c.p, c.hints, c.hinted)
       [] c.op = "vcurve" -> WithSgrid(c, VLopt(c), VCurveVerdict(c.variant, c.y, c.nd, c.grid, c.lc, c.hasp, c.p, c.out, VLopt(c), c.pats, c.hints, c.hinted, c.swept))
       [] c.op = "gcv" -> WithSgrid(c, GLopt(c), GcvVerdict(c.y, c.nd, c.grid, c.robust, c.hasp, c.p, c.out, GLopt(c), c.hints, c.hinted))
       [] c.op = "robustfam" -> RobustFam(c)
@@ -43,6 +44,7 @@ Link(c) ==
         oo == IF c.rel = "reverse" THEN Rev(o.out) ELSE IF c.rel = "shift" THEN [i \in 1..Len(o.out) |-> o.out[i] - c.shift] ELSE o.out
         samel == IF b.sgonly THEN b.sg = o.sg ELSE b.lopt = o.lopt
     IN  IF Len(o.out) # n THEN <<"REJECT", "Length", "">>
+        ELSE IF b.inmod \/ o.inmod THEN <<"REJECT", "InputsUnmodified", b.variant>>
         ELSE IF c.rel = "affine" THEN
              (IF \A j \in 1..n : ToString(o.out[j]) = c.line[j] THEN <<"ACCEPT", "", "">> ELSE <<"REJECT", "KeepsLinear", o.variant>>)
         \* too few valid cells: both come back unchanged (each echoes its own placeholder), lambda 0
